@@ -61,7 +61,19 @@ let parse_tree (toks : string list) : AttrTree.anode =
          | _ -> failwith ("bad tree token " ^ t)) in
   node ()
 
-let the_tree : AttrTree.anode option ref = ref None
+(* initial dictionaries by setup variant ("P" prepared, "F" new context, "B<n>" n VMCOREINFO lines) *)
+let trees : (string * AttrTree.anode) list ref = ref []
+let cur_variant = ref "P"
+let is_variant t =
+  t = "P" || t = "F" || (String.length t > 1 && t.[0] = 'B' && t.[1] >= '0' && t.[1] <= '9')
+let get_tree () =
+  try Stdlib.List.assoc !cur_variant !trees
+  with Not_found -> failwith ("no TREE line for variant " ^ !cur_variant)
+(* a history line may start with the variant *)
+let strip_variant (ws : string list) : string list =
+  match ws with
+  | v :: rest when is_variant v -> cur_variant := v; rest
+  | _ -> cur_variant := "P"; ws
 let fresh : (string * (string * string) list) list ref = ref []
 
 (* ---- keys ---- *)
@@ -126,7 +138,7 @@ let tyval_of_str (s : string) =
   (ty, val_of ty (String.sub s 1 (String.length s - 1)))
 
 let run_ops (ops : (string * AttrTree.aop) list) : string list =
-  let tree = match !the_tree with Some t -> t | None -> failwith "no TREE line" in
+  let tree = get_tree () in
   let st = ref (AttrTree.ainit tree) in
   Stdlib.List.map (fun (src, o) ->
     let (r, s') = AttrTree.astep o !st in
@@ -150,20 +162,18 @@ let parse_fresh (s : string) =
 
 let header (line : string) : string option =
   match words line with
-  | "TREE" :: toks ->
+  | "TREE" :: v :: toks ->
       let t = parse_tree toks in
-      the_tree := Some t; fresh := [];
-      (* the hypotheses of the theorems, evaluated on the dictionary the run starts from *)
-      if not (AttrTree.anc_okb t) then Some "tree-not-ancestor-closed"
-      else if not (AttrTree.uniqb t) then Some "tree-with-duplicate-sibling-keys"
-      else Some "tree"
-  | ["FRESH"; idx; d] -> fresh := (idx, parse_fresh d) :: !fresh; Some "fresh"
+      trees := (v, t) :: Stdlib.List.remove_assoc v !trees;
+      (* the hypothesis of C13_executable_spec_init, evaluated on the dictionary the run starts from *)
+      if not (AttrTree.uniqb t) then Some "tree-with-duplicate-sibling-keys" else Some "tree"
+  | ["FRESH"; idx; d] -> fresh := (idx, parse_fresh d) :: Stdlib.List.remove_assoc idx !fresh; Some "fresh"
   | _ -> None
 
 let run_case (line : string) : string =
   match header line with
   | Some r -> r
-  | None -> String.concat " " (run_ops (Stdlib.List.map (fun w -> (w, parse_op w)) (words line)))
+  | None -> String.concat " " (run_ops (Stdlib.List.map (fun w -> (w, parse_op w)) (strip_variant (words line))))
 
 (* =====================================================================
    spec mode: "<history> || <implementation's output line>"
@@ -194,7 +204,7 @@ let volatile_key (p : string) =
   || pre (hx "memory" ^ "." ^ hx "pagemap")
 
 let spec_history (ops : string list) (outs : string list) : string =
-  let tree = match !the_tree with Some t -> t | None -> failwith "no TREE line" in
+  let tree = get_tree () in
   if Stdlib.List.length ops <> Stdlib.List.length outs then
     bad "implementation produced %d results for %d operations"
       (Stdlib.List.length outs) (Stdlib.List.length ops);
@@ -350,8 +360,14 @@ let spec_history (ops : string list) (outs : string list) : string =
           with Not_found -> bad "%s: no dump (%s)" op out in
         if st <> "0" then bad "%s: re-open failed with status %s" op st;
         let got = Stdlib.List.filter (fun (p, _) -> not (volatile_key p)) (parse_fresh dump) in
+        (* the listing walks down from the root through directories that have a value *)
+        let rec prefixes p = match Stdlib.List.rev p with
+          | [] -> [] | _ :: r -> let q = Stdlib.List.rev r in if q = [] then [] else q :: prefixes q in
+        let visible p = Stdlib.List.for_all (fun q ->
+          match AttrSpec.dl_find q after with Some e -> e.AttrSpec.e_set | None -> false) (prefixes p) in
         let kept = Stdlib.List.filter_map (fun (p, e) ->
-          if p <> [] && e.AttrSpec.e_set then Some (path_str p, char_of_ty e.AttrSpec.e_ty ^ show_val e.AttrSpec.e_val)
+          if p <> [] && e.AttrSpec.e_set && visible p
+          then Some (path_str p, char_of_ty e.AttrSpec.e_ty ^ show_val e.AttrSpec.e_val)
           else None) after in
         let exp = Stdlib.List.filter (fun (p, _) -> not (volatile_key p))
             (fr @ Stdlib.List.filter (fun (p, _) -> not (Stdlib.List.mem_assoc p fr)) kept) in
@@ -374,7 +390,7 @@ let spec_case (line : string) : string =
       let i = try find_sub line " || " with Not_found -> failwith "bad spec line" in
       let case = String.sub line 0 i
       and out = String.sub line (i + 4) (String.length line - i - 4) in
-      (try spec_history (words case) (words out) with
+      (try spec_history (strip_variant (words case)) (words out) with
        | Bad s -> s
        | Not_found -> "ok")     (* a malformed history (undefined slot or context): nothing to judge *)
 
